@@ -199,6 +199,18 @@ func VH_C07_MapBytes() {
 		_, err := m.Set(vhCompareBK, vhHip, key, val)
 		vhAssert(err == nil, "set")
 	}
+	if n <= 1 && vhChoose("multi", 2) == 1 {
+		// grow to several slabs (real hashing would need the default builder; the
+		// harness builder serves known digests): root index slab + leaves
+		for i := 0; i < 5; i++ {
+			k := vBKey{val: uint64(50 + i), d: [4]uint64{uint64(1000 * (i + 1)), 1, 1, 1}}
+			b.known[k.val] = k.d
+			_, err := m.Set(vhCompareBK, vhHip, k, vBlob{n: 80})
+			vhAssert(err == nil, "set (filler)")
+		}
+		_, isMeta := m.root.(*MapMetaDataSlab)
+		vhRequire(isMeta, "filled map has an index root")
+	}
 	verr := VerifyMap(m, addr, vTypeInfo{id: 42}, vhTic, vhHip, true)
 	vhAssert(verr == nil, "map valid")
 	serr := VerifyMapSerialization(m, storage.cborDecMode, storage.cborEncMode, vhDecodeStorableB, vhDecodeTypeInfo, vhStorableEqual)
